@@ -192,9 +192,28 @@ def build(spec, variant):
     if variant.get('shuffle'):
         r.shuffle(items)
     for m, p in items:
-        ss.add(m, p)
+        ss.add(m, dict(p))         # (System.add consumes the dictionary it is given)
     ss.setup()
+    ss.verif_items = items
     return ss, bidx
+
+
+def entered_in_effect(ss):
+    """the input data in effect are the data entered: every numeric value handed to System.add (all of them satisfy
+    the documented restrictions of their parameters) is the input-base value of that device"""
+    bad = []
+    for m, p in ss.verif_items:
+        mdl = ss.models[m]
+        u = mdl.idx2uid(p['idx'])
+        for k, v in p.items():
+            if k in ('idx', 'name', 'bus', 'bus1', 'bus2') or not isinstance(v, (int, float)):
+                continue
+            got = float(mdl.params[k].vin[u])
+            if got != float(v):
+                bad.append(('entered-data-not-in-effect', '%s %r was entered with %s = %r; the input value in effect is %r: the '
+                            'power flow is that of another network' % (m, p['idx'], k, v, got)))
+                break
+    return bad[:3]
 
 
 PF_MODELS = {'Bus', 'PQ', 'PV', 'Slack', 'Shunt', 'Line'}
@@ -430,6 +449,7 @@ def job(arg):
         cnt('niter:%d' % (ss.PFlow.niter + 1))
         base_sol = None
         normal = False
+        out['oracle'] += entered_in_effect(ss)
         if conv:
             bad, info = oracle(ss)
             out['oracle'] += bad
